@@ -175,8 +175,13 @@ def cases(draw, tier):
         if case["mut"] == "add_diagonal":
             case["rhs"] = gen.flit(draw, cfg, (min(m, n),), 1, 8)
     elif opn in ("add", "sub", "mul"):
-        kind = draw(st.sampled_from(["rows", "cols", "batch", "rows_1_ok?"]))
-        if kind == "rows":
+        kind = draw(st.sampled_from(["rows", "cols", "batch", "rows_1_ok?", "both", "both", "both", "both"]))
+        if kind == "both":
+            # another size in BOTH matrix dimensions: for a square operator the bad operand is square too, so the
+            # diagonal-like classes (Diag, ConstantDiag, Identity) and their fast paths are reachable
+            dd = draw(st.sampled_from([1, 1, 2, -1])) if min(m, n) > 1 else draw(st.sampled_from([1, 2]))
+            shp = batch + (m + dd, n + dd)
+        elif kind == "rows":
             shp = batch + (m + 1, n)
         elif kind == "cols":
             shp = batch + (m, n + 2)
@@ -185,10 +190,10 @@ def cases(draw, tier):
         else:
             shp = batch + (m + 1, 1)
         case["mut"] = kind
-        if draw(st.booleans()):
+        if draw(st.integers(0, 3)) == 0:
             case["rhs"] = gen.flit(draw, cfg, shp, -8, 8)
         else:
-            if draw(st.booleans()):
+            if draw(st.integers(0, 3)) == 0:
                 case["rhs_op"] = gen.mk_dense(draw, cfg, "any", shp[-2], shp[-1], shp[:-2], 1) if draw(st.booleans()) else {"op": "Diag", "d": gen.flit(draw, cfg, shp[:-2] + (shp[-1],), 1, 8)}
             else:
                 case["rhs_op"] = structured_operand(draw, cfg, dt, shp[:-2], shp[-2], shp[-1])
